@@ -3,6 +3,7 @@
 package commits
 
 import (
+	"context"
 	"strconv"
 
 	"github.com/brimdata/super"
@@ -29,6 +30,8 @@ type vSet [vNObj]bool
 type vUniverse struct {
 	ids  [vNObj]ksuid.KSUID
 	objs [vNObj]*data.Object
+
+	arbitraryOrder bool // map-order harnesses: see revertOnce
 }
 
 // vCounterRand makes ksuid.New deterministic and collision free (public
@@ -52,7 +55,7 @@ func vNewUniverse() *vUniverse {
 	for i := 0; i < vNObj; i++ {
 		u.ids[i][0] = 0x10
 		u.ids[i][19] = byte(i + 1)
-		u.objs[i] = &data.Object{ID: u.ids[i], Count: verif.Uint64("count" + strconv.Itoa(i))}
+		u.objs[i] = &data.Object{ID: u.ids[i], Min: zed.Null, Max: zed.Null, Count: verif.Uint64("count" + strconv.Itoa(i))}
 	}
 	return u
 }
@@ -149,7 +152,6 @@ func vMerge(maxP, maxC int, arbitraryOrder bool) {
 	pst, cst := base, base
 	P := u.history("P", maxP, &pst, false)
 	C := u.history("C", maxC, &cst, false)
-	verif.ArbitraryMapOrder(arbitraryOrder)
 
 	// The parent's tip is the real fold of its history over the base.
 	T := B.Copy()
@@ -166,8 +168,12 @@ func vMerge(maxP, maxC int, arbitraryOrder bool) {
 		verif.Assert(u.same(T, pst) && u.same(B, base), "refused-merge-leaves-parent-untouched")
 		return
 	}
+	// Go map iteration order (Patch.SelectAll in Diff, diff.objects in
+	// NewCommitObject) is arbitrary in the map-order harness.
+	verif.ArbitraryMapOrder(arbitraryOrder)
 	diff, err := Diff(parentPatch, childPatch)
 	if err != nil {
+		verif.ArbitraryMapOrder(false)
 		verif.Reach("diff-refused")
 		verif.Assert(u.same(T, pst) && u.same(B, base), "refused-merge-leaves-parent-untouched")
 		return
@@ -175,6 +181,7 @@ func vMerge(maxP, maxC int, arbitraryOrder bool) {
 	var tipID ksuid.KSUID
 	tipID[0] = 0x77
 	o := diff.NewCommitObject(tipID, 0, "author", "message", zed.Null)
+	verif.ArbitraryMapOrder(false)
 	verif.Assert(o.Parent == tipID && len(o.Actions) >= 2, "merge-commit-shape")
 
 	// The merge commit becomes the parent's new tip: reading the branch is
@@ -213,7 +220,7 @@ func vMerge(maxP, maxC int, arbitraryOrder bool) {
 func VerifH_C15_O1_merge() { vMerge(2, 2, false) }
 
 // verif:desc C15-O1 (map order) same as VerifH_C15_O1_merge with Go map iteration order of the snapshots (Patch.SelectAll in Diff, diff.objects in NewCommitObject) arbitrary
-// verif:bounds 3 objects, base any subset, parent 0..1 and child 0..2 actions, every map range of <= 4 entries in any order
+// verif:bounds 3 objects, base any subset, parent 0..1 and child 0..2 actions, every map range inside Diff/NewCommitObject (Patch.Revert) in any order
 // verif:outside as VerifH_C15_O1_merge
 // verif:tier thorough
 func VerifH_C15_O1_merge_maporder() { vMerge(1, 2, true) }
@@ -260,7 +267,9 @@ func (u *vUniverse) revertOnce(before *Snapshot, beforeSt vSet, K []Action, afte
 	}
 	var commitID ksuid.KSUID
 	commitID[0] = 0x55
+	verif.ArbitraryMapOrder(u.arbitraryOrder) // range over the patch's diff in Revert
 	o, err := patch.Revert(tip, commitID, tipID, 0, "author", "message")
+	verif.ArbitraryMapOrder(false)
 	if err != nil {
 		verif.Reach(tag + "revert-refused")
 		verif.Assert(o == nil, tag+"revert-error-has-no-object")
@@ -280,7 +289,7 @@ func vRevert(maxK, maxL int, arbitraryOrder bool) {
 	K := u.history("K", maxK, &kst, true)
 	tst := kst
 	L := u.history("L", maxL, &tst, false)
-	verif.ArbitraryMapOrder(arbitraryOrder)
+	u.arbitraryOrder = arbitraryOrder
 
 	T := B.Copy()
 	verif.Assert(vPlayAll(T, K) == nil && vPlayAll(T, L) == nil, "valid-history-replays")
@@ -328,7 +337,7 @@ func vRevert(maxK, maxL int, arbitraryOrder bool) {
 func VerifH_C15_O2_revert() { vRevert(2, 2, false) }
 
 // verif:desc C15-O2 (map order) same as VerifH_C15_O2_revert with Go map iteration order arbitrary
-// verif:bounds 3 objects, K 0..2, L 0..1 actions, every map range of <= 4 entries in any order
+// verif:bounds 3 objects, K 0..2, L 0..1 actions, every map range inside Diff/NewCommitObject (Patch.Revert) in any order
 // verif:outside as VerifH_C15_O2_revert
 // verif:tier thorough
 func VerifH_C15_O2_revert_maporder() { vRevert(2, 1, true) }
@@ -338,3 +347,234 @@ func VerifH_C15_O2_revert_maporder() { vRevert(2, 1, true) }
 // verif:outside as VerifH_C15_O2_revert
 // verif:tier thorough
 func VerifH_C15_O2_revert_deep() { vRevert(3, 3, false) }
+
+// ---------------------------------------------------------------------------
+// C15-O3 merge and revert through the Store's path plumbing
+// ---------------------------------------------------------------------------
+
+// vTree is a commit tree held in the store's object cache: a trunk ending in
+// the common ancestor, then a parent branch and a child branch.
+type vTree struct {
+	u      *vUniverse
+	s      *Store
+	next   int
+	states map[ksuid.KSUID]vSet
+	paths  map[ksuid.KSUID][]ksuid.KSUID // leaf-to-root
+}
+
+// commit appends a commit with the given toggles after parent.
+func (t *vTree) commit(parent ksuid.KSUID, toggles []int) ksuid.KSUID {
+	id := vCommitID(t.next)
+	t.next++
+	st := t.states[parent] // zero set for ksuid.Nil
+	o := &Object{Commit: id, Parent: parent}
+	o.append(&Commit{ID: id, Parent: parent, Author: "a", Message: "m"})
+	for _, i := range toggles {
+		o.append(t.u.toggle(&st, i))
+	}
+	t.s.cache.Add(id, o)
+	t.states[id] = st
+	t.paths[id] = append([]ksuid.KSUID{id}, t.paths[parent]...)
+	return id
+}
+
+// branch appends 0..max commits of one action each and returns the tip.
+func (t *vTree) branch(name string, from ksuid.KSUID, max int) ksuid.KSUID {
+	n := verif.Choose(name+".n", max+1)
+	tip := from
+	for k := 0; k < n; k++ {
+		tip = t.commit(tip, []int{verif.Choose(name+"["+strconv.Itoa(k)+"]", vNObj)})
+	}
+	return tip
+}
+
+func vSamePath(a, b []ksuid.KSUID) bool {
+	if len(a) != len(b) {
+		return false
+	}
+	for i := range a {
+		if a[i] != b[i] {
+			return false
+		}
+	}
+	return true
+}
+
+// vCommonAncestor is lake.commonAncestor (transcribed; package lake is not
+// loaded by this harness).
+func vCommonAncestor(a, b []ksuid.KSUID) ksuid.KSUID {
+	m := make(map[ksuid.KSUID]struct{})
+	for _, id := range a {
+		m[id] = struct{}{}
+	}
+	for _, id := range b {
+		if _, ok := m[id]; ok {
+			return id
+		}
+	}
+	return ksuid.Nil
+}
+
+func vStoreMerge(maxP, maxC int) {
+	u := vNewUniverse()
+	s := vNewStore(&vEngine{})
+	ctx := context.Background()
+	t := &vTree{u: u, s: s, states: map[ksuid.KSUID]vSet{}, paths: map[ksuid.KSUID][]ksuid.KSUID{}}
+	// trunk: an optional empty first commit, then a commit adding any subset.
+	root := ksuid.Nil
+	if verif.Choose("trunk2", 2) == 1 {
+		root = t.commit(root, nil)
+	}
+	var adds []int
+	for i, in := range vSymSet("base") {
+		if in {
+			adds = append(adds, i)
+		}
+	}
+	baseID := t.commit(root, adds)
+	base := t.states[baseID]
+	parentTip := t.branch("P", baseID, maxP)
+	childTip := t.branch("C", baseID, maxC)
+	pst, cst := t.states[parentTip], t.states[childTip]
+
+	// Branch.buildMergeObject, statement by statement, on the real Store.
+	childPath, err := s.Path(ctx, childTip)
+	verif.Assert(err == nil && vSamePath(childPath, t.paths[childTip]), "path-is-leaf-to-root")
+	parentPath, err := s.Path(ctx, parentTip)
+	verif.Assert(err == nil && vSamePath(parentPath, t.paths[parentTip]), "path-is-leaf-to-root")
+	anc := vCommonAncestor(parentPath, childPath)
+	verif.Assert(anc == baseID, "common-ancestor")
+	baseSnap, err := s.Snapshot(ctx, anc)
+	verif.Assert(err == nil && baseSnap != nil && u.same(baseSnap, base), "snapshot-is-fold-of-its-chain")
+	if err != nil || baseSnap == nil {
+		return
+	}
+	childPatch, err1 := s.PatchOfPath(ctx, baseSnap, anc, childTip)
+	parentPatch, err2 := s.PatchOfPath(ctx, baseSnap, anc, parentTip)
+	var o *Object
+	if err1 == nil && err2 == nil {
+		var diff *Patch
+		if diff, err = Diff(parentPatch, childPatch); err == nil {
+			o = diff.NewCommitObject(parentTip, 0, "author", "message", zed.Null)
+		}
+	}
+	if o == nil {
+		verif.Reach("merge-refused")
+	} else {
+		// Branch.commit: the object is stored and becomes the parent's tip;
+		// reading the parent branch is Store.Snapshot of it.
+		verif.Assert(o.Parent == parentTip, "merge-commit-parent-is-tip")
+		s.cache.Add(o.Commit, o)
+		merged, err := s.Snapshot(ctx, o.Commit)
+		bothDelete := false
+		for i := range base {
+			if base[i] && !pst[i] && !cst[i] {
+				bothDelete = true
+			}
+		}
+		if bothDelete {
+			verif.Assert(err == nil, "merged-branch-readable/both-sides-delete-same-object")
+		} else {
+			verif.Assert(err == nil, "merged-branch-readable")
+		}
+		if err == nil {
+			var want vSet
+			for i := range want {
+				want[i] = (pst[i] || (cst[i] && !base[i])) && !(base[i] && !cst[i])
+			}
+			verif.Assert(merged != nil && u.same(merged, want), "merge-result")
+			verif.Reach("merged")
+		}
+	}
+	// Successful or not: every pre-existing commit reads as before (C13) and
+	// both branches remain readable.
+	for id, st := range map[ksuid.KSUID]vSet{baseID: base, parentTip: pst, childTip: cst} {
+		snap, err := s.Snapshot(ctx, id)
+		verif.Assert(err == nil && snap != nil && u.same(snap, st), "existing-commits-unchanged")
+	}
+	verif.Reach("end")
+}
+
+// verif:desc C15-O3 merge through the store plumbing: commit tree (trunk, parent branch, child branch) in the real Store object cache; real Store.Path, Store.PathRange (cold and via the paths LRU), Store.Snapshot, Store.PatchOfPath, Diff, NewCommitObject in the order of Branch.buildMergeObject; the merge commit is added as new parent tip and read back with Store.Snapshot. Asserts: paths are leaf-to-root, ancestor snapshot is the fold, a merge that is not refused reads back as tip + child adds - child deletes, and base/parent/child commits read as before.
+// verif:bounds 3 objects, trunk = optional empty commit + commit adding any subset (8), parent 0..1 and child 0..2 commits of one valid action each; model storage without failures
+// verif:outside the body of lake.Branch.buildMergeObject/commonAncestor themselves (transcribed in the harness), Branch.commit retry loop and branch pointer update, vectors, storage failures, repeated merges
+func VerifH_C15_O3_store_merge() { vStoreMerge(1, 2) }
+
+// verif:desc C15-O3 (deeper) same as VerifH_C15_O3_store_merge with parent 0..2 and child 0..2 commits
+// verif:bounds 3 objects, trunk as in the quick harness, parent 0..2 and child 0..2 commits of one action
+// verif:outside as VerifH_C15_O3_store_merge
+// verif:tier thorough
+func VerifH_C15_O3_store_merge_deep() { vStoreMerge(2, 2) }
+
+func vStoreRevert(maxN, maxAct int) {
+	u := vNewUniverse()
+	s := vNewStore(&vEngine{})
+	ctx := context.Background()
+	c := u.chain(s, maxN, maxAct)
+	k := verif.Choose("revert", c.n) // the commit to revert: any commit of the branch
+	tipID := c.ids[c.n-1]
+	tst := c.states[c.n-1]
+	var before vState
+	if k > 0 {
+		before = c.states[k-1]
+	}
+	after := c.states[k]
+
+	// Branch.Revert's constructor on the real Store.
+	patch, err := s.PatchOfCommit(ctx, c.ids[k])
+	verif.Assert(err == nil && patch != nil, "patch-of-readable-commit")
+	if err != nil || patch == nil {
+		return
+	}
+	tip, err := s.Snapshot(ctx, tipID)
+	verif.Assert(err == nil && tip != nil && u.sameState(tip, tst), "snapshot-is-fold-of-its-chain")
+	if err != nil || tip == nil {
+		return
+	}
+	want := tst
+	changes := false
+	for i := range want.objs {
+		if !before.objs[i] && after.objs[i] && tst.objs[i] {
+			want.objs[i] = false
+			changes = true
+		}
+		if before.objs[i] && !after.objs[i] && !tst.objs[i] {
+			want.objs[i] = true
+			changes = true
+		}
+	}
+	var commitID ksuid.KSUID
+	commitID[0] = 0x55
+	o, err := patch.Revert(tip, commitID, tipID, 0, "author", "message")
+	if err != nil {
+		verif.Reach("revert-refused")
+		verif.Assert(!changes, "revert-refused-only-when-nothing-to-revert")
+	} else {
+		verif.Assert(o != nil && o.Parent == tipID, "revert-commit-parent-is-tip")
+		s.cache.Add(o.Commit, o)
+		r, err := s.Snapshot(ctx, o.Commit)
+		verif.Assert(err == nil && r != nil, "reverted-branch-readable")
+		if err == nil && r != nil {
+			// data objects as the property states; vectors are not touched
+			// by Patch.Revert (outside).
+			verif.Assert(u.same(r, want.objs), "revert-result")
+			verif.Reach("reverted")
+		}
+	}
+	for j := 0; j < c.n; j++ {
+		snap, err := s.Snapshot(ctx, c.ids[j])
+		verif.Assert(err == nil && snap != nil && u.sameState(snap, c.states[j]), "existing-commits-unchanged")
+	}
+	verif.Reach("end")
+}
+
+// verif:desc C15-O3 revert through the store plumbing: chain of commits in the real Store object cache; real Store.PatchOfCommit (Store.Path, parent = path[1], empty base for the first commit), Store.Snapshot of the tip, Patch.Revert, the revert commit added as new tip and read back with Store.Snapshot. Asserts: objects added by the reverted commit and still present are gone, objects it deleted and still absent are back, others unchanged; refusal only when nothing to revert; all earlier commits read as before.
+// verif:bounds chain of 1..3 commits each with 0..1 valid action over 3 objects + 1 vector, revert of any commit of the chain at the tip; model storage without failures
+// verif:outside the body of lake.Branch.Revert itself (transcribed), vectors of reverted objects, commits that are not on the branch, storage failures
+func VerifH_C15_O3_store_revert() { vStoreRevert(3, 1) }
+
+// verif:desc C15-O3 (deeper) same as VerifH_C15_O3_store_revert with up to 2 actions per commit
+// verif:bounds chain of 1..2 commits each 0..2 valid actions on distinct slots over 3 objects + 1 vector, revert of any commit at the tip
+// verif:outside as VerifH_C15_O3_store_revert
+// verif:tier thorough
+func VerifH_C15_O3_store_revert_deep() { vStoreRevert(2, 2) }
